@@ -146,7 +146,7 @@ def gen_exact_cases(rng, n_cases, big):
         # boundary seeds (0 is falsy in Python, 2**32-1 the largest legacy seed) are drawn on purpose
         seed = int(rng.choice([0, 0, 1, 2**32 - 1])) if k % 4 == 0 else int(rng.integers(0, 2**31))
         yield {"part": "A", "model": m.describe(), "n": n, "seed": seed,
-               "rs": str(rng.choice(["int", "generator"]))}
+               "rs": str(rng.choice(["int", "generator", "npint"]))}
 
 
 def structure_cases(rng):
@@ -157,11 +157,21 @@ def structure_cases(rng):
                    "gen": "all-structures"}
 
 
+def _make_rs(kind, seed):
+    """random_state as the caller writes it: a Python int, a numpy integer scalar (what np.arange / rng.integers /
+    SeedSequence.generate_state hand out) or a Generator"""
+    if kind == "int":
+        return seed
+    if kind == "npint":
+        return np.int64(seed)
+    return np.random.default_rng(seed)
+
+
 def process_exact(ck, case):
     desc = doubles.model_from_desc(case["model"])
     model = desc.build()
     n, seed = case["n"], case["seed"]
-    rs = seed if case["rs"] == "int" else np.random.default_rng(seed)
+    rs = _make_rs(case["rs"], seed)
     got = np.asarray(model.draw_sample(n, random_state=rs), dtype=float)
     rng2 = np.random.default_rng(seed)
     stream = np.concatenate([rng2.uniform(size=n) for _ in range(desc.n_dim)])
@@ -192,13 +202,13 @@ def process_exact(ck, case):
                 break
         again = np.asarray(model.draw_sample(n, random_state=seed))
         again_g = np.asarray(model.draw_sample(n, random_state=np.random.default_rng(seed)))
-        if not np.array_equal(got, again if case["rs"] == "int" else again_g):
+        if not np.array_equal(got, again if case["rs"] in ("int", "npint") else again_g):
             bad.append(("same_seed_reproduces", "repeating the call with the same seed gives a different sample"))
         other = np.asarray(model.draw_sample(n, random_state=seed + 1))
         if np.array_equal(other, again):
             bad.append(("different_seeds_differ", f"seeds {seed} and {seed+1} give identical samples"))
         # object re-use: after the draw with another seed the SAME object reproduces the first sample ...
-        rs2 = seed if case["rs"] == "int" else np.random.default_rng(seed)
+        rs2 = _make_rs(case["rs"], seed)
         if not np.array_equal(got, np.asarray(model.draw_sample(n, random_state=rs2))):
             bad.append(("reproduces_after_earlier_draw_on_same_object", f"seed {seed} ({case['rs']})"))
         # ... and so does a second object; seed pairs beyond s/s+1
